@@ -532,7 +532,7 @@ def enum_steps(cfg, rng):
 
 
 def shards(tier, seed):
-    n = 640 if tier == "quick" else 8000
+    n = 640 if tier == "quick" else 32000
     specs = [{"kind": "sample", "seed": seed, "shard": i, "configs": n // NSHARDS, "steps": 60 if tier == "quick" else 200}
              for i in range(NSHARDS)]
     specs.append({"kind": "enum", "seed": seed, "stride": 8 if tier == "quick" else 1})
